@@ -451,7 +451,16 @@ def collect_variable_lookup(
     ##
 
     if resolved_kwargs is not None:
-        variable_lookup.append(resolved_kwargs)
+        # Only the parameters of the condition are its local variables. The remaining arguments of the call
+        # must not shadow the closure and the globals which the condition actually reads.
+        parameters = inspect.signature(condition).parameters
+        variable_lookup.append(
+            {
+                key: value
+                for key, value in resolved_kwargs.items()
+                if key in parameters
+            }
+        )
 
     ##
     # Add closure to the lookup
